@@ -741,6 +741,13 @@ def ob_hetero(law, dim, planeStress):
                 params[k] = field(base[k] * 1.1, kind)
                 setattr(m, k, params[k])
                 check(m, params, f"fields {pat}, then {k} re-assigned as {'scalar' if kind == 's' else kind}")
+            # the caller's own array, modified in place and assigned again (the same object): the law must follow on the next read
+            if isinstance(params[k], np.ndarray):
+                arr = params[k]
+                arr *= 1.07
+                arr.flat[0] *= 1.2
+                setattr(m, k, arr)
+                check(m, params, f"fields {pat}, then the array given for {k} modified in place and assigned again")
     return Verdict(DISCHARGED, backend="native run of the real law classes vs the homogeneous law point by point", sub=n)
 
 
